@@ -14,7 +14,7 @@ THEOREMS = ["Mpir.AliasMem.ofInts_ok",
             "Mpir.AliasMem.tdiv_qr_ptr_spec", "Mpir.AliasMem.tdiv_qr_alias", "Mpir.AliasMem.tdiv_q_ptr_spec", "Mpir.AliasMem.tdiv_r_ptr_spec",
             "Mpir.AliasMem.cfdiv_qr_ptr_spec", "Mpir.AliasMem.cfdiv_qr_alias", "Mpir.AliasMem.cfdiv_q_ptr_spec", "Mpir.AliasMem.cfdiv_r_ptr_spec",
             "Mpir.AliasMem.mod_ptr_spec", "Mpir.AliasMem.divexact_ptr_spec", "Mpir.AliasMem.div3_alias", "Mpir.AliasMem.div_q_ui_ptr_spec",
-            "Mpir.AliasMem.mul_2exp_ptr_spec", "Mpir.AliasMem.tdiv_q_2exp_ptr_spec", "Mpir.AliasMem.cfdiv_q_2exp_ptr_spec",
+            "Mpir.AliasMem.mul_2exp_ptr_spec", "Mpir.AliasMem.tdiv_q_2exp_ptr_spec", "Mpir.AliasMem.cfdiv_q_2exp_ptr_spec", "Mpir.AliasMem.tdiv_r_2exp_ptr_spec",
             "Mpir.AliasMem.mpz_and_ptr_spec", "Mpir.AliasMem.mpz_xor_ptr_spec", "Mpir.AliasMem.logic_ptr_spec", "Mpir.AliasMem.mpz_com_ptr_spec",
             "Mpir.AliasMem.sqrtrem_ptr_spec", "Mpir.AliasMem.mpz_gcd_ptr_spec", "Mpir.AliasMem.mpz_neg_ptr_spec", "Mpir.AliasMem.mpz_abs_ptr_spec", "Mpir.AliasMem.mpz_set_ptr_spec",
             "Mpir.Mpf.mpf_neg_alias", "Mpir.Mpf.mpf_abs_alias", "Mpir.Mpf.mpf_add_alias", "Mpir.Mpf.mpf_sub_alias",
@@ -22,7 +22,7 @@ THEOREMS = ["Mpir.AliasMem.ofInts_ok",
 PINS = [("mpz/tdiv_qr.c", None), ("mpz/tdiv_q.c", None), ("mpz/tdiv_r.c", None),
         ("mpz/fdiv_qr.c", None), ("mpz/cdiv_qr.c", None), ("mpz/fdiv_q.c", None), ("mpz/cdiv_q.c", None),
         ("mpz/fdiv_r.c", None), ("mpz/cdiv_r.c", None), ("mpz/mod.c", None), ("mpz/divexact.c", None), ("mpz/tdiv_q_ui.c", None), ("mpz/fdiv_q_ui.c", None), ("mpz/cdiv_q_ui.c", None),
-        ("mpz/mul_2exp.c", None), ("mpz/tdiv_q_2exp.c", None), ("mpz/cfdiv_q_2exp.c", None),
+        ("mpz/mul_2exp.c", None), ("mpz/tdiv_q_2exp.c", None), ("mpz/cfdiv_q_2exp.c", None), ("mpz/tdiv_r_2exp.c", None),
         ("mpz/sqrtrem.c", None), ("mpz/gcd.c", None), ("mpz/neg.c", None), ("mpz/abs.c", None), ("mpz/and.c", None), ("mpz/ior.c", None), ("mpz/xor.c", None), ("mpz/com.c", None),
         ("mpf/neg.c", None), ("mpf/abs.c", None), ("mpf/add.c", None), ("mpf/sub.c", None), ("mpf/add_ui.c", None),
         ("mpf/sub_ui.c", None), ("mpf/ui_sub.c", None),
@@ -109,7 +109,7 @@ def gen_ops(rng, tier, ctx=None):
                         v[n] = v[d] * k
                     yield "alias_divexact %x %x %x 0 %s" % (w, n, d, " ".join(hx(x) for x in v))
     # in-place shifts: every (w, u), bit counts around limb boundaries, carry limb / no carry limb, top limb zero after the right shift
-    for fn in ("mul_2exp", "tdiv_q_2exp", "cdiv_q_2exp", "fdiv_q_2exp"):
+    for fn in ("mul_2exp", "tdiv_q_2exp", "cdiv_q_2exp", "fdiv_q_2exp", "tdiv_r_2exp"):
         for w in range(4):
             for u in range(4):
                 for _ in range(reps * 6):
